@@ -254,7 +254,8 @@ open GeomV GeomV.C06 in
 def main (args : List String) : IO Unit := do
   let out ← IO.getStdout
   match args with
-  | ["judge"] => forEachLine fun l => out.putStrLn (judgeLine l)
+  | ["judge"] => forEachLine fun l =>   -- one verdict per line: control characters in quoted texts become blanks
+      out.putStrLn (String.ofList ((judgeLine l).toList.map fun c => if c.toNat < 32 then ' ' else c))
   | ["json"] => forEachLine fun l =>     -- debugging aid: parse a JSON text, print the tree tokens
       out.putStrLn (match parseJson l.toList with
         | some t => " ".intercalate (treeToks t) ++ "   rfc=" ++ (match Rfc.read t with | some g => Proto.geomStr g | none => "none")
